@@ -84,6 +84,26 @@ def run(chk):
                 "cls": "bundle-mutual-files"})
     raw.append({"files": {"foo/v1/focus.j5s": C, "foo/v1/a.j5s": A.replace("\tfield b object:Banana\n", "\tfield n string\n")},
                 "focus": "foo/v1/focus.j5s", "cls": "bundle-one-way"})
+    # entity declarations of spec/J5Entity.tla (every key marker combination, events, commands, summaries, query settings):
+    # all valid, all must compile
+    re_ = chk.tlc("J5EntityMC.tla", "J5Entity_quick.cfg", "entities", workers=W, timeout=1800)
+    ents = re_.cases
+    re_.cases = []
+    random.Random(chk.seed).shuffle(ents)
+    seen_e, first_e, rest_e = set(), [], []
+    for c in ents:
+        k = c.get("focus", "")
+        (rest_e if k in seen_e else first_e).append(c)
+        seen_e.add(k)
+    ents = first_e + rest_e[: (600 if quick else 6000)]
+    pres = chk.replay("entity-print", ents, "entprint", workers=W, timeout="60s")
+    nent = 0
+    for e in pres:
+        note = (e.get("out") or {}).get("note") or ""
+        if note and "\nERROR:" not in note:
+            raw.append({"files": {"foo/v1/foo.j5s": note}, "focus": "foo/v1/foo.j5s", "cls": "entity", "valid": True, "nolint": True})
+            nent += 1
+    chk.extra_cov["entity_declarations"] = nent
     res2 = chk.replay("lang-compile", raw, "raw", workers=W, timeout="30s")
     chk.absorb("lang-compile", raw, res2)
     # multi-file / multi-package bundles of the j5s language model (spec/J5Schema.tla): imports by package, alias and file
